@@ -196,6 +196,25 @@ def _func_locals(fn):
     return names
 
 
+_paren_cache = {}
+
+
+def _needs_parens(text):
+    """does `text` need parentheses when used as the base of an attribute / subscript?"""
+    r = _paren_cache.get(text)
+    if r is None:
+        try:
+            n = _parse_expr(text)
+            r = not isinstance(n, (ast.Name, ast.Attribute, ast.Subscript, ast.Call, ast.List, ast.ListComp, ast.Dict, ast.Set, ast.Tuple,
+                                   ast.DictComp, ast.SetComp)) and not (isinstance(n, ast.Constant) and isinstance(n.value, str))
+            if isinstance(n, ast.Tuple):
+                r = not text.startswith("(")
+        except SyntaxError:
+            r = True
+        _paren_cache[text] = r
+    return r
+
+
 _gen_cache = {}
 
 
@@ -277,7 +296,7 @@ class Walker:
             b = self._fast(n.value, frame, env)
             if b is None:
                 return None
-            if not _ATOMIC.match(b):
+            if _needs_parens(b):
                 b = "(" + b + ")"
             return b + "." + n.attr
         if isinstance(n, ast.Constant):
@@ -287,7 +306,7 @@ class Walker:
             i = self._fast(n.slice, frame, env)
             if b is None or i is None:
                 return None
-            if not _ATOMIC.match(b):
+            if _needs_parens(b):
                 b = "(" + b + ")"
             return "%s[%s]" % (b, i)
         if isinstance(n, ast.Call):
